@@ -45,6 +45,11 @@ type Server struct {
 	TCPPort       int      `json:"tcpPort,omitempty"`
 	UDPPort       int      `json:"udpPort,omitempty"`
 	Acceptors     int      `json:"acceptors,omitempty"` // concurrent Server.Accept callers in the server application (default 1)
+	// RawMux: the applications take proxy connections straight from the session multiplexers
+	// (protocol.Mux DialContext/Accept), as mieru's own client and server programs do, instead
+	// of through apis/client and apis/server. No SOCKS request precedes the data: the
+	// application's first Write is the session's first Write.
+	RawMux bool `json:"rawMux,omitempty"`
 }
 
 // Script is what one application end does on one connection.
@@ -85,6 +90,7 @@ type Client struct {
 // DgramRule is one explicit datagram fate.
 type DgramRule struct {
 	Client int    `json:"client"`          // which client's flow
+	Flow   string `json:"flow,omitempty"`  // if set: only this flow (client socket address); a client may own several
 	Dir    int    `json:"dir"`             // 0 c2s, 1 s2c
 	Index  int    `json:"index"`           // datagram index within (flow, dir); -1 with Match set = by content class
 	Match  string `json:"match,omitempty"` // targeted: "openreq","openresp","closereq","closeresp","data:<seq>","ack","anydata"; Nth counts matches
@@ -355,6 +361,11 @@ type Probe struct {
 	Seed      uint64 `json:"seed,omitempty"`
 	User      int    `json:"user,omitempty"` // hostile: index of the registered user the attacker controls
 	Count     int    `json:"count,omitempty"`
+	// Intercepted (prefix/trunc): the attacker sits on the path. The genuine first
+	// segment it copies never reaches the server (the spec's fault plan swallows it), so the
+	// server's replay detection has not seen it; only proper prefixes are sent.
+	Intercepted bool `json:"intercepted,omitempty"`
+	CutTail     int  `json:"cutTail,omitempty"` // intercepted: send the segment without its last CutTail bytes (overrides Arg)
 }
 
 // SegGeo is the byte geometry of one decoded segment (reference pass of C04).
